@@ -297,4 +297,8 @@ var Controls = []Control{
 	{"C14", "Is method not asked for a nil receiver", "markers/markers.go", `\tif x, ok := err\.\(interface\{ Is\(error\) bool \}\); ok && x\.Is\(reference\) \{`, "\tif x, ok := err.(interface{ Is(error) bool }); ok && !reflect.ValueOf(err).IsZero() && x.Is(reference) {", "R-IS-DELEGATE"},
 	{"C18", "single telemetry layer hands out its own key slice", "telemetrykeys/telemetrykeys.go", `func GetTelemetryKeys\(err error\) \[\]string \{\n`, "func GetTelemetryKeys(err error) []string {\n\tif w, ok := err.(*withTelemetry); ok && errbase.UnwrapOnce(w.cause) == nil {\n\t\treturn w.keys\n\t}\n", "R-RESULT-FRESH"},
 	{"C19", "issue links provide details too", "issuelink/issuelink.go", `\n// IssueLink is the payload for a linked issue annotation\.`, "\n// ErrorDetail exposes the detail of the link.\nfunc (l IssueLink) ErrorDetail() string { return l.Detail }\n\n// IssueLink is the payload for a linked issue annotation.", "R-HINT-PROVIDERS"},
+	// round 11
+	{"C08", "type marks equal on the family name when the extension is empty", "errorspb/markers.go", `return m\.FamilyName == o\.FamilyName && m\.Extension == o\.Extension`, `return m.FamilyName == o.FamilyName && (m.Extension == "" || m.Extension == o.Extension)`, "R-MARK-EQUALS"},
+	{"C08", "type marks compared with an early return", "errorspb/markers.go", `return m\.FamilyName == o\.FamilyName && m\.Extension == o\.Extension`, "if m.FamilyName != o.FamilyName {\n\t\treturn false\n\t}\n\treturn m.Extension == o.Extension", CleanVariant},
+	{"C12", "stack trace probed before the layer's own safe details", "errbase/safe_details.go", `\tif sd, ok := err\.\(SafeDetailer\); ok \{\n\t\treturn sd\.SafeDetails\(\)\n\t\}\n(.*?)\treturn nil\n\}\n\n// SafeDetailPayload`, "${1}\tif sd, ok := err.(SafeDetailer); ok {\n\t\treturn sd.SafeDetails()\n\t}\n\treturn nil\n}\n\n// SafeDetailPayload", "R-DETAILS-ORDER"},
 }
